@@ -17,8 +17,13 @@ import (
 )
 
 func runForever(w io.Writer, stats map[string]int) {
-	type fcase struct{ failFrom, failCount int }
-	cases := []fcase{{1, 1}, {1, 2}, {0, 2}, {2, 2}}
+	// kind "faults": the cloud fails for failCount calls from call failFrom on; kind "foreign": no fault, but a node that is due
+	// for removal is not a member of the cloud group — RunOnce returns the not-in-group error and RunForever must return it
+	type fcase struct {
+		failFrom, failCount int
+		foreign             bool
+	}
+	cases := []fcase{{1, 1, false}, {1, 2, false}, {0, 2, false}, {2, 2, false}, {0, 0, true}}
 	results := make([]map[string]interface{}, len(cases))
 	done := make(chan int, len(cases))
 	for ci, fc := range cases {
@@ -32,9 +37,24 @@ func runForever(w io.Writer, stats map[string]int) {
 			h.pcfgs = []PGroupCfg{protoCfg(o)}
 			h.aws.asgs["asg0"] = &SimASG{Name: "asg0", Min: 0, Max: 5, VpcZones: "subnet-a"}
 			h.scanInterval = 20 * time.Millisecond
+			if fc.foreign {
+				h.addNode(0, 4000, 16*GiB, 5000, true) // a member, so that the cloud group is above its minimum
+				f := h.addNode(0, 4000, 16*GiB, 5000, false)
+				f.Taints = append(f.Taints, WTaint{Key: escKey, Effect: "NoSchedule", Rel: true, Ago: 3600}) // long past both grace periods
+				h.aws.asgs["asg0"].Desired = 1
+			}
 			h.syncOrdered()
+			sec := time.Now().Unix()
+			h.mock.FreezeAt(time.Unix(sec, 0))
+			for _, n := range h.api {
+				h.k8s.store[n.Name] = n.materialise(sec)
+			}
+			h.nodeL.nodes = nil
+			for _, n := range h.listed {
+				h.nodeL.nodes = append(h.nodeL.nodes, n.materialise(sec))
+			}
 			obs := map[string]interface{}{"outcome": "init-failed", "scans": 0}
-			results[ci] = map[string]interface{}{"op": "forever", "failFrom": fc.failFrom, "failCount": fc.failCount, "obs": obs}
+			results[ci] = map[string]interface{}{"op": "forever", "failFrom": fc.failFrom, "failCount": fc.failCount, "foreign": fc.foreign, "obs": obs}
 			if !h.initController() {
 				return
 			}
